@@ -488,6 +488,26 @@ Proof.
   - intros Rn. apply (reachf_inv_idle _ _ R Rn).
 Qed.
 
+
+(* C07.1 split: the direction "reserved => in flight" at full strength ... *)
+Theorem c07_reserved_inflight c s : reach c s ->
+  (forall id k, In (id, k) (used s) ->
+     exists t un, nth_error (tasks s) k = Some t /\ t_id t = id /\ id <> [] /\ t_hasctx t = true /\
+                  nth_error (units s) (t_unit t) = Some un /\ u_st un <> UFinished) /\
+  NoDup (map fst (used s)) /\
+  (running s = false -> used s = []).
+Proof. intros R. destruct (c07_inv_used c s R) as (A & B & _ & D). auto. Qed.
+
+(* ... and the converse "in flight => reserved under its own index" for states that have not crashed.
+   FULL STATEMENT (not proved): the same without the hypothesis [crash s = None].  Missing: the invariant that a
+   unit dequeued while the server was stopped (u_chok = false) cannot be unfinished while running = true
+   (a restart needs wg = 0, i.e. all units finished), which excludes the only crash (CrNilChannel in deliver,
+   after release_ids) that separates [used] from the unfinished units. *)
+Theorem c07_inflight_reserved_partial c s : reach c s -> running s = true -> crash s = None ->
+  forall k t un, nth_error (tasks s) k = Some t -> t_hasctx t = true -> t_id t <> [] ->
+    nth_error (units s) (t_unit t) = Some un -> u_st un <> UFinished -> assoc (t_id t) (used s) = Some k.
+Proof. intros R. destruct (c07_inv_used c s R) as (_ & _ & C & _). exact C. Qed.
+
 (** * C07.2: who can cancel a context *)
 Lemma find_op_some n l o : find_op n l = Some o -> In o l /\ op_num o = n.
 Proof. unfold find_op. intros H. apply find_some in H as [I E]. apply Nat.eqb_eq in E. auto. Qed.
